@@ -100,6 +100,9 @@ func exoticVal(rng *Rng) string {
 		if rng.Chance(1, 3) {
 			return strings.Repeat("L", rng.Pick2(2100, 4200)) // longer than any "reasonable" limit somebody might build in
 		}
+		if rng.Chance(1, 12) {
+			return strings.Repeat("H", 66000) // more than 64 KiB
+		}
 	}
 	return rng.Pick(oddVals)
 }
@@ -218,6 +221,9 @@ func (g *Gen) GenShape(cfg ShapeCfg) {
 	}
 	sc.Options.EncodedPath = rng.Chance(1, 10)
 	sc.Options.Wrapped = rng.Chance(1, 10)
+	if rng.Chance(1, 15) {
+		sc.Options.Intercept = rng.Pick([]string{"/a", "/u/7", "/coming-soon", "/blog/x/1"}) // InterceptAll: everything is resolved as this path
+	}
 	if cfg.FallbackOpts {
 		sc.Options.NotAllowed = rng.Chance(1, 2)
 		sc.Options.Fallback = rng.Chance(1, 8)
@@ -411,7 +417,7 @@ func (g *Gen) GenRequest(prev []Req) Req {
 			m = m[:1] + strings.ToLower(m[1:])
 		}
 	}
-	return Req{Method: m, Path: path, Gone: rng.Chance(1, 14)}
+	return Req{Method: m, Path: path, Gone: rng.Chance(1, 14), Expired: rng.Chance(1, 20), HTTP10: rng.Chance(1, 12), Served: rng.Chance(1, 3)}
 }
 
 // ---- schedules ----
